@@ -294,3 +294,5 @@ def bay_slices(chk):
     got = [norm(n) for n in sl]
     # also accept passing c with kernels that only read the leading block
     chk.ob('R11.6', ok or not sl, BAY, 'StiffPanelBay.uvw_skin', 'skin slice', expected='c[:num*m*n] (skin block is first in the layout)', got=got)
+    from . import c13
+    c13.uvw_stiffener_layout(chk, 'R11.6')
